@@ -749,10 +749,10 @@ class SmtLibParser(object):
         """
         Cleans the execution environment when we exit the scope of a quantifier
         """
-        variables = set()
+        variables = []
         for vname, var in vrs:
             self.cache.unbind(vname)
-            variables.add(var)
+            variables.append(var)
         return fun(variables, body)
 
     def _enter_let(self, stack: List[List[Union[Callable, FNode, List[Tuple[str, FNode]], Any]]], tokens: Tokenizer, key: str):
